@@ -419,6 +419,16 @@ def run_import(case, out):
         kw["version"] = v
     if case["via"] == "frame":
         fr = pd.DataFrame({c: d[c] for c in order})
+        # RELION frames in memory are often sorted / filtered views: row labels need not be 0..n-1
+        ik = ["default", "reversed", "offset", "strided"][case["seed"] % 4]
+        if ik == "reversed":
+            fr.index = list(range(n - 1, -1, -1))
+        elif ik == "offset":
+            fr.index = list(range(n + 3, 2 * n + 3))
+        elif ik == "strided":
+            fr.index = list(range(0, 3 * n, 3))
+        out.label(f"frame_index:{ik}")
+        fr_keep = fr.copy()
         if px_via == "optics":
             kw["optics_data"] = pd.DataFrame({"rlnOpticsGroup": [1], "rlnOpticsGroupName": ["opticsGroup1"], "rlnImagePixelSize": [px]})
         ok, m = call(out, "RelionMotl(relion_frame)", lambda: cryomotl.RelionMotl(fr, **kw))
@@ -460,5 +470,14 @@ def run_import(case, out):
     shift = -origin / px if v >= 3.1 else -origin
     exp = {"pos": pos, "shift": shift, "px": px, "R": np.transpose(M, (0, 2, 1)), "tomo": tomo.tolist(), "cls": cls.tolist(), "subnum": sub.tolist(), "subset": subset}
     check_import_table(out, m.df, "import", exp, tolp, tolr)
+    if case["via"] == "frame" and not out.violations:
+        # the caller's frame is an input: it must be unchanged, and importing it again gives the same list
+        out.check(fr.equals(fr_keep), "import:caller_frame_modified", "")
+        ok, m_again = call(out, "RelionMotl(relion_frame)", lambda: cryomotl.RelionMotl(fr, **kw))
+        if ok:
+            sub = Outcome()
+            check_import_table(sub, m_again.df, "import_again", exp, tolp, tolr)
+            if sub.violations:
+                out.fail("import:second_import_of_same_frame_differs", sub.violations[0][0] + " " + sub.violations[0][1])
     if not case["give_version"] and hasattr(m, "version"):
         out.check(float(m.version) == float(v), "import:version_detection", f"{m.version} vs {v}")
